@@ -481,6 +481,20 @@ func runC14(c *engine.Ctx) {
 							}
 							return pay
 						}
+						// adjustments over an anonymous dimension beside named ones: the named values count
+						mixed := func(osv string, extra bool) []byte {
+							with := gen.Map().Set("", gen.Str("x")).Set("os", gen.Str(osv))
+							setup := gen.Map().Set("", gen.Seq(gen.Str("x"), gen.Str("y"))).Set("os", gen.Seq(gen.Str("linux"), gen.Str("windows")))
+							if extra {
+								with.Set("arch", gen.Str("arm64"))
+								setup.Set("arch", gen.Seq(gen.Str("arm64")))
+							}
+							return mkm(gen.Map().Set("setup", setup).Set("adjustments", gen.Seq(gen.Map().Set("with", with).Set("soft_fail", gen.Bool(true)))))
+						}
+						ma, mb, mc := mixed("linux", false), mixed("windows", false), mixed("linux", true)
+						if (ma != nil && mb != nil && bytes.Equal(ma, mb)) || (ma != nil && mc != nil && bytes.Equal(ma, mc)) {
+							c.Fail("C14.differ", "adjustment over an anonymous and named dimensions", "steps whose matrix adjustments differ in a named dimension's value (beside the anonymous dimension) have the SAME payload: %s", truncate(string(ma), 600))
+						}
 						empty := func() *gen.Node { return &gen.Node{Kind: gen.KSeq, Seq: []*gen.Node{}} }
 						variants := map[string][]byte{
 							"no-matrix":         mkm(nil),
